@@ -32,6 +32,12 @@ def datasets():
     for g in ("D", "g1"):      # one subject with consecutive values: an increment's insertion is another solution's deletion
         out.append([[I("n1"), I("p"), N(1), g], [I("n1"), I("p"), N(2), g], [I("n1"), I("p"), N(3), g]])
         out.append([[I("n1"), I("p"), N(2), g], [I("n1"), I("p"), N(1), g], [I("n2"), I("p"), N(2), g]])
+    # a chain with a shared middle: deleting for one solution removes what another solution matched
+    for g in ("D", "g1"):
+        out.append([[I("n1"), I("p"), I("n2"), g], [I("n2"), I("q"), I("n3"), g], [I("n3"), I("p"), I("n2"), g]])
+    # blank nodes in the store that carry the labels the requests write (_:x, _:m): request labels are fresh nodes all the same
+    out.append([[BN("x"), I("p"), N(1), "D"], [I("n1"), I("q"), BN("x"), "g1"], [BN("m"), I("p"), N(2), "D"]])
+    out.append([[BN("x"), I("p"), N(1), "g1"], [BN("m"), I("val"), N(1), "D"], [I("n1"), I("p"), N(1), "D"]])
     out.append([])
     return out
 
@@ -68,6 +74,15 @@ def requests():
     rs.append([{"u": "deletewhere", "quads": [Q((V("s"), I("p"), V("o")), "g1")]}])
     rs.append([{"u": "deletewhere", "quads": [Q((V("s"), I("p"), V("o")), V("g"))]}])
     rs.append([{"u": "deletewhere", "quads": [Q((V("s"), I("p"), V("o"))), Q((V("s"), I("q"), V("x")))]}])
+    rs.append([{"u": "deletewhere", "quads": [Q((V("x"), I("p"), V("y"))), Q((V("y"), I("q"), V("z")))]}])
+    rs.append([{"u": "deletewhere", "quads": [Q((V("x"), I("p"), V("y")), "g1"), Q((V("y"), I("q"), V("z")), "g1")]}])
+    # GRAPH ?v in a template whose ?v is unbound for some solutions, bound to a literal or bound to an IRI from the data
+    optw = grp(SPO, {"t": "optional", "g": grp(bgp((V("s"), I("q"), V("w"))))})
+    rs.append([mod(optw, ins=[Q((V("s"), I("r"), V("o")), V("w"))])])
+    rs.append([mod(optw, dele=[Q((V("s"), I("p"), V("o")), V("w")), Q((V("s"), I("p"), V("o")))], ins=[Q((V("s"), I("r"), V("o")), V("w")), Q((V("s"), I("r2"), V("o")))])])
+    rs.append([mod(grp(SPO), ins=[Q((V("s"), I("r"), V("o")), V("o"))])])
+    rs.append([mod(grp(SPO), ins=[Q((V("s"), I("r"), V("o")), V("nope"))])])
+    rs.append([mod(grp(SPO), dele=[Q((V("s"), I("p"), V("o")), V("o"))], ins=[Q((V("o"), I("r"), V("s")), V("s"))])])
     # modify: one solution's insertion is another solution's deletion
     inc = grp(SPO, {"t": "bind", "e": {"e": "+", "a": ev("o"), "b": ec(N(1))}, "v": "n"})
     rs.append([mod(inc, dele=[Q((V("s"), I("p"), V("o")))], ins=[Q((V("s"), I("p"), V("n")))])])
